@@ -43,10 +43,17 @@ func genFrame(t *rapid.T, label string, maxBody int) frameSpec {
 func genC04(t *rapid.T) c04Case {
 	c := c04Case{Reuse: rapid.Bool().Draw(t, "reuse")}
 	n := rapid.IntRange(1, 12).Draw(t, "n")
+	manyShort := rapid.IntRange(0, 7).Draw(t, "many_short") == 0
+	if manyShort {
+		n = rapid.IntRange(17, 48).Draw(t, "n_many") // dozens of short frames fit into one 1023-byte read
+	}
 	total := 0
 	var bounds []int
 	for i := 0; i < n; i++ {
 		f := genFrame(t, "f", 1023)
+		if manyShort {
+			f = genFrame(t, "f", 6)
+		}
 		c.Frames = append(c.Frames, f)
 		total += len(f.bytes())
 		bounds = append(bounds, total)
